@@ -411,3 +411,44 @@ Definition dump_di (d : discinfo) : result str :=
                    | _ => Err TypeError
                    end);
   Ok (join [c_nl] [strip_ws ts; desc; arch; nums]).
+
+(* ---- the .discinfo reader: [i.strip() for i in f.readlines()], then the four lines by position *)
+Definition di_lines (text : str) : list str :=
+  let parts := split c_nl text in
+  map strip_ws (match rev parts with [] :: r => rev r | _ => parts end).
+
+(* float(): modelled on CANONICAL decimal tokens only - "<int>.<frac>", no sign, no superfluous zeros, at most 15 significant
+   digits (such a token is the repr of the float it denotes: CPython's shortest round-trip repr, trusted); a text with no digit that
+   cannot spell inf/nan is refused (ValueError); any other text is outside the model (OtherError), which the correspondence check
+   skips and counts *)
+Definition canonical_float (s : str) : bool :=
+  match split_first c_dot s with
+  | Some (ip, fr) =>
+      forallb is_digit ip && forallb is_digit fr &&
+      negb (match ip with [] => true | _ => false end) && negb (match fr with [] => true | _ => false end) &&
+      (match ip with 48 :: _ :: _ => false | _ => true end) &&
+      (match rev fr with 48 :: _ :: _ => false | _ => true end) &&
+      Nat.leb (length ip + length fr) 15 &&
+      negb (str_eqb ip (F"0") && Nat.ltb 4 (length fr))
+  | None => false
+  end.
+
+Definition float_of_text (s : str) : result pyval :=
+  if canonical_float s then Ok (PFloat s)
+  else if forallb (fun c => negb (is_digit c || N.eqb c 110 || N.eqb c 78)) s then Err ValueError    (* no digit, and not inf/nan *)
+  else Err OtherError.
+
+Definition load_di (text : str) : result discinfo :=
+  let lines := di_lines text in
+  do l0 <- of_option IndexError (nth_error lines 0);
+  do ts <- float_of_text (strip_ws l0);
+  do l1 <- of_option IndexError (nth_error lines 1);
+  let desc := strip_quotes (strip_ws l1) in
+  do l2 <- of_option IndexError (nth_error lines 2);
+  let arch := strip_ws l2 in
+  let dn := match nth_error lines 3 with Some l3 => strip_ws l3 | None => [] end in
+  do nums <- (if match dn with [] => true | _ => false end || str_eqb dn (F"ALL") then Ok [PStr (F"ALL")]
+              else mapM (fun s => py_int (PStr s)) (split c_comma dn));
+  let d := {| di_timestamp := ts; di_description := PStr desc; di_arch := PStr arch; di_disc_numbers := PList nums |} in
+  check validate_with customs_di (F"discinfo.DiscInfo") (di_obj d);
+  Ok d.
